@@ -188,6 +188,10 @@ func main() {
 }
 
 func validateTileMatrixSet(tms tms20.TileMatrixSet, tileMatrixIDs []tms20.TMID) error {
+	// first, because the deviation stats assume a quad tree (and panic on e.g. variable matrix widths)
+	if err := pointindex.IsQuadTree(tms); err != nil {
+		return err
+	}
 	deepestTMID := slices.Max(tileMatrixIDs)
 	stats, deviationInUnits, deviationInPixels, err := pointindex.DeviationStats(tms, deepestTMID)
 	if err != nil {
@@ -197,7 +201,7 @@ func validateTileMatrixSet(tms tms20.TileMatrixSet, tileMatrixIDs []tms20.TMID) 
 		log.Printf("[WARNING] (largest) deviation is larger than 1 tile pixel (%f units) on the deepest matrix (%d)\n", deviationInUnits, deepestTMID)
 		log.Println(stats)
 	}
-	return pointindex.IsQuadTree(tms)
+	return nil
 }
 
 func initGPKGTarget(targetPathFmt string, tmID int, overwrite bool, pagesize int) *gpkg.TargetGeopackage {
